@@ -183,6 +183,29 @@ def compute (mat : Mat α) (s t : α) : DoubleShiftQR α :=
     if negligible epsAbs (H.get (i + 1) i) (H.get i i) (H.get (i + 1) (i + 1)) then H.set (i + 1) i zero else H) st.1
   ⟨n, H, s, t, st.2.1, st.2.2⟩
 
+/-- `old.compute(mat, s, t)` on an object that already holds a factorization: `m_mat_H` is resized and assigned as a whole;
+    `m_ref_u.resize(3, n)` and `m_ref_nr.resize(n)` KEEP their contents when the size is unchanged (Eigen reallocates only when
+    the number of coefficients changes; then the contents are unspecified: `junk`, `junkNr`) and are NOT cleared: `update_block`
+    writes `nr[il..iu]` for every block, and column `i` of `m_ref_u` only when `nr[i] ≥ 2`.  Hence columns of `m_ref_u` with
+    `nr = 1` hold stale reflectors of the earlier factorization; no method reads them (`c08_dsqr_recompute`). -/
+def recompute (old : DoubleShiftQR α) (junk : α) (junkNr : Nat) (mat : Mat α) (s t : α) : DoubleShiftQR α :=
+  let n := mat.rows
+  let H0 : Mat α := Mat.ofFn n n (fun i j => mat.get i j)
+  let epsAbs : α := near0 * (Sc.ofInt (n : Int) / Sc.eps)
+  let sp := (List.range (n - 1)).foldl (splitStep n epsAbs) (H0, (#[0] : Array Nat))
+  let zi := sp.2.push n
+  let u0 : Mat α := if old.u.rows = 3 ∧ old.u.cols = n ∧ old.u.d.size = 3 * n then old.u else ⟨3, n, Array.replicate (3 * n) junk⟩
+  let nr0 : Array Nat := if old.nr.size = n then old.nr else Array.replicate n junkNr
+  let st0 : St α := (sp.1, u0, nr0)
+  let st := (List.range (zi.size - 1)).foldl (fun st i => update_block n s t st (zi.getD i 0) (zi.getD (i + 1) 0 - 1)) st0
+  let H := (List.range (n - 1)).foldl (fun (H : Mat α) i =>
+    if negligible epsAbs (H.get (i + 1) i) (H.get i i) (H.get (i + 1) (i + 1)) then H.set (i + 1) i zero else H) st.1
+  ⟨n, H, s, t, st.2.1, st.2.2⟩
+
+/-- the reflector store as the harness prints it: columns with `nr = 1` (never written, never read) cleared -/
+def uLive (q : DoubleShiftQR α) : Mat α :=
+  Mat.ofFn 3 q.n (fun i j => if q.nr.getD j 0 == 1 then zero else q.u.get i j)
+
 def matrix_QtHQ (q : DoubleShiftQR α) : Mat α := q.H
 
 /-- `apply_QtY(Vector&)` -/
